@@ -565,6 +565,9 @@ func (p *Parser) parseBuffer(buf []byte, last bool) (err error) {
 			if b == '-' {
 				p.num.NegExp = true
 			}
+			if 0 < len(p.num.BigBuf) {
+				p.num.BigBuf = append(p.num.BigBuf, b)
+			}
 			continue
 		case expDigit:
 			p.num.AddExp(b)
